@@ -64,6 +64,12 @@ def effect(e, env):
         s, st = var(recv, env)
         a = strip(args[0])
         if st == 'rsender':
+            if a[0] == 'mcall' and is_path(a[1], 'db'):
+                # sender.send(db.get(&key)): the argument is evaluated first
+                t2, ty2 = effect(a, env)
+                if ty2 != 'response':
+                    raise Untranslatable('send of a %s on a Read sender' % ty2)
+                return '(r__ <- %s ;; send_read %s r__)' % (t2, s), 'unit'
             return 'send_read %s %s' % (s, var(a, env, 'response')[0]), 'unit'
         if st == 'nsender':
             # Ok(value)
@@ -137,6 +143,16 @@ def stmts(ss, env, ind):
                 b = stmts(block_stmts(body), env2, 0)
                 return seq('sfor %s (fun %s => %s)' % (q, s, b))
             raise Untranslatable('while let shape')
+        if e[0] == 'for':
+            pat, it, body = e[1], strip(e[2]), e[3]
+            if it[0] == 'mcall' and it[2] in ('into_iter', 'iter') and not it[3]:
+                it = strip(it[1])
+            if pat[0] == 'pid':
+                q, qt = var(it, env, 'queue')
+                env2 = dict(env); env2[pat[1]] = (pat[1], 'nsender')
+                b = stmts(block_stmts(body), env2, 0)
+                return seq('sfor %s (fun %s => %s)' % (q, pat[1], b))
+            raise Untranslatable('for shape')
         if e[0] == 'match':
             r, rt = var(e[1], env, 'response')
             arms = e[2]
